@@ -81,7 +81,7 @@ class ZeepSide(object):
         d = {}
         for (dcid, f), x in zip(X.declaring(desc, v[1]), v[2]):
             T = classes[dcid]._type_info[f['name']]
-            key = '_value_1' if f['kind'] == 'data' else f['name']
+            key = '_value_1' if f['kind'] == 'data' else X.wname(f)
             d[key] = self.field_to_zeep(desc, classes, f, T, x)
         return d
 
@@ -125,7 +125,7 @@ class ZeepSide(object):
         vals = []
         for dcid, f in X.declaring(desc, ty[1]):
             T2 = classes[dcid]._type_info[f['name']]
-            key = '_value_1' if f['kind'] == 'data' else f['name']
+            key = '_value_1' if f['kind'] == 'data' else X.wname(f)
             vals.append(self.field_from_zeep(desc, classes, f, T2, o.get(key)))
         return ('obj', ty[1], vals)
 
@@ -195,3 +195,14 @@ def make_spyne_client(app, wapp, prot):
             self.service = RemoteService(_RP, 'http://verif.invalid/', app)
 
     return Client()
+
+
+def client_read(sc, name, received):
+    """the Spyne client's reading (get_in_object) of a given response document: (in_object, in_header)"""
+    proc = getattr(sc.service, name)
+    ctx = proc.contexts[0]
+    ctx.in_string = [received]
+    proc.get_in_object(ctx)
+    if ctx.in_error is not None:
+        raise ctx.in_error
+    return ctx.in_object, ctx.in_header
